@@ -36,6 +36,30 @@ def atom_key(a):
     return a[1]
 
 
+def key_atom(k):
+    """inverse of atom_key for the keys reference/routing.json uses"""
+    if k.startswith("<") and k.endswith(">"):
+        parts = k[1:-1].split("/")
+        return ("C", tuple(parts[:-1]), parts[-1])
+    parts = k.split("/")
+    return ("A", tuple(parts[:-1]), parts[-1])
+
+
+def pattern_cells(tag, routing):
+    """base cells fixed by the supported-kind patterns of `tag`: the obligation 'delivered exactly once' is stated per
+    pattern, so its atoms are fixed up front - a handler that stops testing one of them is still judged on that kind"""
+    import itertools
+    out = []
+    for p in routing.get("incoming", []):
+        if p["tag"] != tag or not p.get("when"):
+            continue
+        keys = sorted(p["when"])
+        vals = [p["when"][k] if isinstance(p["when"][k], list) else [p["when"][k]] for k in keys]
+        for combo in itertools.product(*vals):
+            out.append({key_atom(k): v for k, v in zip(keys, combo)})
+    return out
+
+
 def cell_view(cell):
     return {atom_key(a): v for a, v in cell.items()}
 
@@ -244,6 +268,13 @@ def rule_in(ctx, repo, routing, tier):
                 res = enumerate_cells(lambda cell, d: sim.receive(tag, cell, d), doms, max_cells=6000)
             except Budget:
                 ctx.undecided("C06.in", w, "receive <%s> [modules %s]" % (tag, fl), "cell enumeration exceeded its budget")
+                continue
+            try:
+                for base in pattern_cells(tag, routing):
+                    for c2, r2 in enumerate_cells(lambda cell, d, base=base: sim.receive(tag, {**base, **cell}, d), doms, max_cells=6000):
+                        res.append(({**base, **c2}, r2))
+            except Budget:
+                ctx.undecided("C06.in", w, "receive <%s> [modules %s] (pattern cells)" % (tag, fl), "cell enumeration exceeded its budget")
                 continue
             total += len(res)
             bad = {}
